@@ -1392,6 +1392,12 @@ pub fn sem_new() -> usize {
 /// Post: a release-like harness synchronisation (what a channel send or a mutex unlock gives).
 pub fn sem_post(s: usize) {
     sched_point();
+    sem_post_now(s);
+}
+
+/// The post itself, without a preceding scheduling point: for callers that must publish some
+/// harness state and the post as one indivisible step.
+pub fn sem_post_now(s: usize) {
     let rt = rt().expect("sem_post outside execution");
     let cur = rt.current;
     rt.threads[cur].clock.0[cur] += 1;
